@@ -185,7 +185,8 @@ impl<'a> Printer<'a> {
             E::FnRef(n, _) => n.clone(),
             E::Paren(inner) => format!("({})", self.expr(inner, 0, ind)),
             E::Call(f, args) => {
-                let fs = self.expr(f, P_POSTFIX, ind);
+                // `h.f(x)` is a method call in goml; calling a function-typed field is `(h.f)(x)`
+                let fs = if matches!(**f, E::Field(..)) { format!("({})", self.expr(f, 0, ind)) } else { self.expr(f, P_POSTFIX, ind) };
                 format!("{}({})", fs, self.args(args, ind))
             }
             E::Builtin(n, args) => format!("{}({})", n, self.args(args, ind)),
